@@ -16,6 +16,7 @@ import (
 	_ "verifharness/props/c11"
 	_ "verifharness/props/c12"
 	_ "verifharness/props/c13"
+	_ "verifharness/props/c14"
 	_ "verifharness/props/c17"
 )
 
